@@ -62,6 +62,16 @@ func initWorker() {
 	workerDir = common.Work("c19", fmt.Sprintf("p%d", os.Getpid()), "x")
 	workerDir = filepath.Dir(workerDir)
 	os.RemoveAll(workerDir)
+	// scratch roots of workers that were killed before they could clean up
+	if ents, err := os.ReadDir(filepath.Dir(workerDir)); err == nil {
+		for _, en := range ents {
+			if pid := strings.TrimPrefix(en.Name(), "p"); pid != en.Name() {
+				if _, err := os.Stat("/proc/" + pid); err != nil {
+					os.RemoveAll(filepath.Join(filepath.Dir(workerDir), en.Name()))
+				}
+			}
+		}
+	}
 	os.MkdirAll(workerDir, 0o755)
 }
 
